@@ -1,13 +1,19 @@
 package main
 
 // T1 facts about the file store (pkg/storage/file/{fstore,mbox,fmessage}.go) that the model
-// lean/Ibx/Model/FileStore.lean relies on.  Every fact is recognised from the SHAPE of the code (go/ast);
-// a shape that is not recognised comes out as "unknown" / false, which no tie theorem accepts.
+// lean/Ibx/Model/FileStore.lean relies on.  Every fact is recognised from the STRUCTURE of the code (go/ast) and not
+// from the spelling of locals, receivers, unexported helpers or unexported fields: the things a fact is about are found
+// through structural anchors (crash.go has the machinery: the mailbox struct is the one embedding sync.RWMutex, its
+// message list is its only slice field, its loaded flag its only bool field; the index loader is the function that sets
+// the flag to true; the index writer is the function calling os.Rename; the directory remover the one calling
+// os.RemoveAll; the message constructor the function building a `Message{… Fid: id …}` literal; helpers are inlined).
+// A shape that is not recognised comes out as "unknown" / false, which no tie theorem accepts.
 
 import (
 	"fmt"
 	"go/ast"
 	"go/token"
+	"sort"
 	"strconv"
 	"strings"
 )
@@ -32,64 +38,26 @@ func fsInspect(fd *ast.FuncDecl, f func(ast.Node) bool) {
 	ast.Inspect(fd.Body, f)
 }
 
-// fsCalls: all calls of the function printed as `name` inside n, in source order.
-func fsCalls(n ast.Node, name string) []*ast.CallExpr {
-	var res []*ast.CallExpr
-	if n == nil {
-		return res
-	}
-	ast.Inspect(n, func(x ast.Node) bool {
-		if ce, ok := x.(*ast.CallExpr); ok && src(ce.Fun) == name {
-			res = append(res, ce)
-		}
-		return true
-	})
-	return res
-}
-
-// fsRecvName: the receiver's variable name ("" when there is none).
-func fsRecvName(fd *ast.FuncDecl) string {
+// fsRecvObj: the receiver variable of a method (nil when there is none).
+func fsRecvObj(fd *ast.FuncDecl) *ast.Object {
 	if fd == nil || fd.Recv == nil || len(fd.Recv.List) != 1 || len(fd.Recv.List[0].Names) != 1 {
-		return ""
+		return nil
 	}
-	return fd.Recv.List[0].Names[0].Name
+	return fd.Recv.List[0].Names[0].Obj
 }
 
-// fsStructFields: the fields of `type <name> struct` in f as (field name, type expression).
-func fsStructFields(f *ast.File, name string) (names []string, types []ast.Expr, found bool) {
-	if f == nil {
-		return
+// fsParamObj: the only parameter of fd (nil when it does not have exactly one named parameter).
+func fsParamObj(fd *ast.FuncDecl) *ast.Object {
+	if fd == nil || fd.Type.Params == nil || len(fd.Type.Params.List) != 1 || len(fd.Type.Params.List[0].Names) != 1 {
+		return nil
 	}
-	for _, d := range f.Decls {
-		gd, ok := d.(*ast.GenDecl)
-		if !ok || gd.Tok != token.TYPE {
-			continue
-		}
-		for _, s := range gd.Specs {
-			ts, ok := s.(*ast.TypeSpec)
-			if !ok || ts.Name.Name != name {
-				continue
-			}
-			st, ok := ts.Type.(*ast.StructType)
-			if !ok {
-				return nil, nil, false
-			}
-			found = true
-			for _, fl := range st.Fields.List {
-				if len(fl.Names) == 0 { // embedded
-					names = append(names, src(fl.Type))
-					types = append(types, fl.Type)
-					continue
-				}
-				for _, n := range fl.Names {
-					names = append(names, n.Name)
-					types = append(types, fl.Type)
-				}
-			}
-			return
-		}
-	}
-	return
+	return fd.Type.Params.List[0].Names[0].Obj
+}
+
+// fsIsVar: e is the variable o.
+func fsIsVar(e ast.Expr, o *ast.Object) bool {
+	id, ok := crUnparen(e).(*ast.Ident)
+	return ok && o != nil && id.Obj == o
 }
 
 func fsKind(t ast.Expr) string {
@@ -104,150 +72,8 @@ func fsKind(t ast.Expr) string {
 	return "plain"
 }
 
-// fsIsNotLoaded: e is `!<mb>.indexLoaded`.
-func fsIsNotLoaded(e ast.Expr, mb string) bool {
-	u, ok := e.(*ast.UnaryExpr)
-	return ok && u.Op == token.NOT && src(u.X) == mb+".indexLoaded"
-}
-
-// fsLoadsIndexFirst: body has `if !mb.indexLoaded { … mb.readIndex() … }` before the first use of mb.messages.
-// mb is the name of the mbox variable (receiver of the mbox methods; the local `mb` of the Store methods).
-func fsLoadsIndexFirst(fd *ast.FuncDecl, mb string) bool {
-	if fd == nil || fd.Body == nil || mb == "" {
-		return false
-	}
-	guard := token.NoPos
-	firstUse := token.NoPos
-	ast.Inspect(fd.Body, func(x ast.Node) bool {
-		switch v := x.(type) {
-		case *ast.IfStmt:
-			if guard == token.NoPos && v.Init == nil && fsIsNotLoaded(v.Cond, mb) && len(fsCalls(v.Body, mb+".readIndex")) > 0 {
-				guard = v.Pos()
-			}
-		case *ast.SelectorExpr:
-			if firstUse == token.NoPos && src(v) == mb+".messages" {
-				firstUse = v.Pos()
-			}
-		}
-		return true
-	})
-	if guard == token.NoPos {
-		return false
-	}
-	// the guard must be a statement of the function body itself (not nested in a branch that may be skipped)
-	top := false
-	for _, s := range fd.Body.List {
-		if s.Pos() == guard {
-			top = true
-		}
-	}
-	if !top {
-		return false
-	}
-	return firstUse == token.NoPos || guard < firstUse
-}
-
-// fsMboxVar: the name of the local variable assigned from `<recv>.mbox(…)` in a Store method.
-func fsMboxVar(fd *ast.FuncDecl) string {
-	recv := fsRecvName(fd)
-	res := ""
-	fsInspect(fd, func(x ast.Node) bool {
-		as, ok := x.(*ast.AssignStmt)
-		if !ok || res != "" || len(as.Lhs) != 1 || len(as.Rhs) != 1 {
-			return true
-		}
-		if ce, ok := as.Rhs[0].(*ast.CallExpr); ok && src(ce.Fun) == recv+".mbox" {
-			if id, ok := as.Lhs[0].(*ast.Ident); ok {
-				res = id.Name
-			}
-		}
-		return true
-	})
-	return res
-}
-
-// fsFreshMbox: fd ends in `return &mbox{…}` whose literal sets neither `messages` nor `indexLoaded`.
-func fsFreshMbox(fd *ast.FuncDecl) bool {
-	b := fsBody(fd)
-	if len(b) == 0 {
-		return false
-	}
-	ret, ok := b[len(b)-1].(*ast.ReturnStmt)
-	if !ok || len(ret.Results) != 1 {
-		return false
-	}
-	// no other return in the function
-	nret := 0
-	fsInspect(fd, func(x ast.Node) bool {
-		if _, ok := x.(*ast.ReturnStmt); ok {
-			nret++
-		}
-		return true
-	})
-	if nret != 1 {
-		return false
-	}
-	u, ok := ret.Results[0].(*ast.UnaryExpr)
-	if !ok || u.Op != token.AND {
-		return false
-	}
-	cl, ok := u.X.(*ast.CompositeLit)
-	if !ok {
-		return false
-	}
-	if id, ok := cl.Type.(*ast.Ident); !ok || id.Name != "mbox" {
-		return false
-	}
-	for _, el := range cl.Elts {
-		kv, ok := el.(*ast.KeyValueExpr)
-		if !ok { // positional literal: fields cannot be told apart
-			return false
-		}
-		k := src(kv.Key)
-		if k == "messages" || k == "indexLoaded" {
-			return false
-		}
-	}
-	return true
-}
-
-// fsLastReturn: the results of the last statement of fd when it is a return, printed; nil otherwise.
-func fsLastReturn(fd *ast.FuncDecl) []string {
-	b := fsBody(fd)
-	if len(b) == 0 {
-		return nil
-	}
-	ret, ok := b[len(b)-1].(*ast.ReturnStmt)
-	if !ok {
-		return nil
-	}
-	res := []string{}
-	for _, r := range ret.Results {
-		res = append(res, src(r))
-	}
-	return res
-}
-
-func fsNotFoundWord(results []string, prefix []string) string {
-	if len(results) != len(prefix)+1 {
-		return "unknown"
-	}
-	for i, p := range prefix {
-		if results[i] != p {
-			return "unknown"
-		}
-	}
-	switch results[len(results)-1] {
-	case "storage.ErrNotExist":
-		return "errNotExist"
-	case "nil":
-		return "nil"
-	}
-	return "unknown"
-}
-
 func fsStrLit(e ast.Expr) (string, bool) {
-	lit, ok := e.(*ast.BasicLit)
+	lit, ok := crUnparen(e).(*ast.BasicLit)
 	if !ok || lit.Kind != token.STRING {
 		return "", false
 	}
@@ -255,405 +81,423 @@ func fsStrLit(e ast.Expr) (string, bool) {
 	return s, err == nil
 }
 
-// ---- the extractor --------------------------------------------------------------------------------------
+func fsIntLit(e ast.Expr, want string) bool {
+	lit, ok := crUnparen(e).(*ast.BasicLit)
+	return ok && lit.Kind == token.INT && lit.Value == want
+}
 
-func extractFileStore() {
-	g := gen("FileStore")
-	fst := parse("pkg/storage/file/fstore.go")
-	mbx := parse("pkg/storage/file/mbox.go")
-	fmsg := parse("pkg/storage/file/fmessage.go")
+// fsIsField: e is `<anything>.<field>` (field not empty)
+func fsIsField(e ast.Expr, field string) bool {
+	se, ok := crUnparen(e).(*ast.SelectorExpr)
+	return ok && field != "" && se.Sel.Name == field
+}
 
-	// -- storeFields / storeHasCache
-	names, types, found := fsStructFields(fst, "Store")
-	pairs := []string{}
-	hasCache := "unknown"
-	if found {
-		hasCache = "no"
-		for i, n := range names {
-			k := fsKind(types[i])
-			pairs = append(pairs, fmt.Sprintf("(%s, %s)", leanStr(n), leanStr(k)))
-			t := src(types[i])
-			if k != "plain" || strings.Contains(t, "mbox") || strings.Contains(t, "Message") {
-				hasCache = "unknown"
-			}
+// fsLeaves: no break / continue / return / goto inside n (closures not entered)
+func fsLeaves(n ast.Node) bool {
+	early := false
+	ast.Inspect(n, func(x ast.Node) bool {
+		switch x.(type) {
+		case *ast.FuncLit:
+			return false
+		case *ast.BranchStmt, *ast.ReturnStmt:
+			early = true
 		}
-	}
-	g.def("storeFields", "List (String × String)", "["+strings.Join(pairs, ", ")+"]",
-		"fields of `type Store struct` (fstore.go) as (name, kind); kind = map | slice | chan | plain")
-	g.def("storeHasCache", "String", leanStr(hasCache),
-		"\"no\" iff no Store field is a map / slice / channel and no field type mentions mbox or Message")
+		return true
+	})
+	return early
+}
 
-	// -- mboxPerCall
-	perCall := "unknown"
-	if fsFreshMbox(fn(fst, "Store", "mbox")) && fsFreshMbox(fn(fst, "Store", "mboxFromHash")) {
-		perCall = "fresh"
-	}
-	g.def("mboxPerCall", "String", leanStr(perCall),
-		"\"fresh\" iff (*Store).mbox and (*Store).mboxFromHash both end in `return &mbox{…}` setting neither messages nor indexLoaded")
-
-	// -- loadsIndexFirst
-	type lf struct {
-		key string
-		fd  *ast.FuncDecl
-		mb  string
-	}
-	gm := fn(mbx, "mbox", "getMessages")
-	g1 := fn(mbx, "mbox", "getMessage")
-	rm := fn(mbx, "mbox", "removeMessage")
-	nm := fn(fmsg, "mbox", "newMessage")
-	ms := fn(fst, "Store", "MarkSeen")
-	pm := fn(fst, "Store", "PurgeMessages")
-	lfs := []lf{
-		{"getMessages", gm, fsRecvName(gm)}, {"getMessage", g1, fsRecvName(g1)}, {"removeMessage", rm, fsRecvName(rm)},
-		{"newMessage", nm, fsRecvName(nm)}, {"MarkSeen", ms, fsMboxVar(ms)}, {"PurgeMessages", pm, fsMboxVar(pm)},
-	}
-	lp := []string{}
-	for _, x := range lfs {
-		v := "false"
-		if fsLoadsIndexFirst(x.fd, x.mb) {
-			v = "true"
-		}
-		lp = append(lp, fmt.Sprintf("(%s, %s)", leanStr(x.key), v))
-	}
-	g.def("loadsIndexFirst", "List (String × Bool)", "["+strings.Join(lp, ", ")+"]",
-		"per function: a top-level `if !mb.indexLoaded { … mb.readIndex() … }` precedes the first use of mb.messages")
-
-	// -- readIndexResets
-	ri := fn(mbx, "mbox", "readIndex")
-	resets := "unknown"
-	if b := fsBody(ri); len(b) > 0 {
-		mb := fsRecvName(ri)
-		if as, ok := b[0].(*ast.AssignStmt); ok && as.Tok == token.ASSIGN && len(as.Lhs) == 1 && len(as.Rhs) == 1 && src(as.Lhs[0]) == mb+".messages" {
-			if se, ok := as.Rhs[0].(*ast.SliceExpr); ok && src(se.X) == mb+".messages" && se.Low == nil && se.High != nil && src(se.High) == "0" && !se.Slice3 {
-				resets = "truncates"
-			}
-		}
-	}
-	g.def("readIndexResets", "String", leanStr(resets), "\"truncates\" iff the first statement of mbox.readIndex is `mb.messages = mb.messages[:0]`")
-
-	// -- fileIndexWrite / writeIndexEmptyRemovesDir
-	wi := fn(mbx, "mbox", "writeIndex")
-	wmb := fsRecvName(wi)
-	idxWrite := "unknown"
-	if wi != nil && wmb != "" {
-		creates := fsCalls(wi.Body, "os.Create")
-		renames := fsCalls(wi.Body, "os.Rename")
-		// identifiers defined as `<mb>.indexPath + "<literal>"`
-		temps := map[string]bool{}
-		fsInspect(wi, func(x ast.Node) bool {
-			as, ok := x.(*ast.AssignStmt)
-			if !ok || as.Tok != token.DEFINE || len(as.Lhs) != 1 || len(as.Rhs) != 1 {
-				return true
-			}
-			id, ok := as.Lhs[0].(*ast.Ident)
-			if !ok {
-				return true
-			}
-			if be, ok := as.Rhs[0].(*ast.BinaryExpr); ok && be.Op == token.ADD && src(be.X) == wmb+".indexPath" {
-				if s, ok := fsStrLit(be.Y); ok && s != "" {
-					temps[id.Name] = true
-				}
-			}
-			return true
-		})
-		if len(creates) == 1 && len(creates[0].Args) == 1 {
-			arg := src(creates[0].Args[0])
-			switch {
-			case arg == wmb+".indexPath" && len(renames) == 0:
-				idxWrite = "createInPlace"
-			case temps[arg] && len(renames) == 1 && len(renames[0].Args) == 2 && src(renames[0].Args[0]) == arg &&
-				src(renames[0].Args[1]) == wmb+".indexPath" && renames[0].Pos() > creates[0].Pos():
-				idxWrite = "tempThenRename"
-			}
-		}
-	}
-	g.def("fileIndexWrite", "String", leanStr(idxWrite),
-		"mbox.writeIndex: \"tempThenRename\" = os.Create(mb.indexPath + lit) … os.Rename(tmp, mb.indexPath); \"createInPlace\" = os.Create(mb.indexPath), no rename")
-
-	emptyRemoves := "unknown"
-	for _, s := range fsBody(wi) {
-		is, ok := s.(*ast.IfStmt)
-		if !ok || is.Init != nil {
-			continue
-		}
-		be, ok := is.Cond.(*ast.BinaryExpr)
-		if !ok || be.Op != token.GTR || src(be.X) != "len("+wmb+".messages)" || src(be.Y) != "0" {
-			continue
-		}
-		eb, ok := is.Else.(*ast.BlockStmt)
-		if !ok || len(eb.List) == 0 {
-			continue
-		}
-		// the else branch does nothing to the file system but `return mb.removeDir()` (log calls allowed)
-		ret, ok := eb.List[len(eb.List)-1].(*ast.ReturnStmt)
-		if !ok || len(ret.Results) != 1 || src(ret.Results[0]) != wmb+".removeDir()" {
-			continue
-		}
-		if len(fsCalls(is.Body, wmb+".removeDir")) == 0 {
-			emptyRemoves = "yes"
-		}
-	}
-	g.def("writeIndexEmptyRemovesDir", "String", leanStr(emptyRemoves),
-		"\"yes\" iff mbox.writeIndex is `if len(mb.messages) > 0 { … } else { … return mb.removeDir() }`")
-
-	// -- fileRemoveDir
-	rd := fn(mbx, "mbox", "removeDir")
-	rmb := fsRecvName(rd)
-	removeDir := "unknown"
-	if rd != nil && rmb != "" {
-		var idxRemove, all token.Pos
-		nAll := 0
-		for _, ce := range fsCalls(rd.Body, "os.Remove") {
-			if len(ce.Args) == 1 && src(ce.Args[0]) == rmb+".indexPath" && idxRemove == token.NoPos {
-				idxRemove = ce.Pos()
-			}
-		}
-		for _, ce := range fsCalls(rd.Body, "os.RemoveAll") {
-			if len(ce.Args) == 1 && src(ce.Args[0]) == rmb+".path" {
-				nAll++
-				if all == token.NoPos {
-					all = ce.Pos()
-				}
-			}
-		}
-		switch {
-		case nAll == 1 && idxRemove != token.NoPos && idxRemove < all:
-			removeDir = "indexFirst"
-		case nAll == 1 && idxRemove == token.NoPos:
-			removeDir = "removeAll"
-		}
-	}
-	g.def("fileRemoveDir", "String", leanStr(removeDir),
-		"mbox.removeDir: \"indexFirst\" = os.Remove(mb.indexPath) before os.RemoveAll(mb.path); \"removeAll\" = only os.RemoveAll(mb.path)")
-
-	// -- the three not-found outcomes
-	g.def("markSeenNotFound", "String", leanStr(fsNotFoundWord(fsLastReturn(ms), nil)), "last statement of Store.MarkSeen")
-	g.def("getNotFound", "String", leanStr(fsNotFoundWord(fsLastReturn(g1), []string{"nil"})), "last statement of mbox.getMessage")
-	rmNF := "unknown"
-	for _, s := range fsBody(rm) {
-		is, ok := s.(*ast.IfStmt)
-		if !ok || is.Init != nil || is.Else != nil || len(is.Body.List) != 1 {
-			continue
-		}
-		be, ok := is.Cond.(*ast.BinaryExpr)
-		if !ok || be.Op != token.EQL || src(be.X) != "msg" || src(be.Y) != "nil" {
-			continue
-		}
-		if ret, ok := is.Body.List[0].(*ast.ReturnStmt); ok && len(ret.Results) == 1 {
-			rmNF = fsNotFoundWord([]string{src(ret.Results[0])}, nil)
-		}
-	}
-	g.def("removeNotFound", "String", leanStr(rmNF), "mbox.removeMessage: `if msg == nil { return … }`")
-
-	// -- capLoopShape
-	capShape := "unknown"
-	if nm != nil {
-		mb := fsRecvName(nm)
-		capExpr := mb + ".store.messageCap"
-		genPos := token.NoPos
-		if cs := fsCalls(nm.Body, "generateID"); len(cs) >= 1 {
-			genPos = cs[0].Pos() // the first draw of an id
-		}
-		for _, s := range fsBody(nm) {
-			is, ok := s.(*ast.IfStmt)
-			if !ok || is.Init != nil || is.Else != nil {
+// fsLoader: the function that sets <box>.<loaded flag> = true (the index loader); nil unless there is exactly one
+func fsLoader(p *crPkg) *ast.FuncDecl {
+	var res *ast.FuncDecl
+	n := 0
+	for _, f := range p.files {
+		for _, d := range f.Decls {
+			fd, ok := d.(*ast.FuncDecl)
+			if !ok || fd.Body == nil {
 				continue
 			}
-			be, ok := is.Cond.(*ast.BinaryExpr)
-			if !ok || be.Op != token.GTR || src(be.X) != capExpr || src(be.Y) != "0" || len(is.Body.List) != 1 {
-				continue
-			}
-			fs, ok := is.Body.List[0].(*ast.ForStmt)
-			if !ok || fs.Init != nil || fs.Post != nil {
-				continue
-			}
-			fc, ok := fs.Cond.(*ast.BinaryExpr)
-			if !ok || fc.Op != token.GEQ || src(fc.X) != "len("+mb+".messages)" || src(fc.Y) != capExpr {
-				continue
-			}
-			// id := mb.messages[0].ID()  …  mb.removeMessage(id)
-			idVar := ""
-			for _, bs := range fs.Body.List {
-				if as, ok := bs.(*ast.AssignStmt); ok && as.Tok == token.DEFINE && len(as.Lhs) == 1 && len(as.Rhs) == 1 &&
-					src(as.Rhs[0]) == mb+".messages[0].ID()" {
-					if id, ok := as.Lhs[0].(*ast.Ident); ok {
-						idVar = id.Name
+			sets := false
+			ast.Inspect(fd.Body, func(x ast.Node) bool {
+				if as, ok := x.(*ast.AssignStmt); ok && as.Tok == token.ASSIGN && len(as.Lhs) == 1 && len(as.Rhs) == 1 && fsIsField(as.Lhs[0], p.boolField) {
+					if id, ok := as.Rhs[0].(*ast.Ident); ok && id.Name == "true" {
+						sets = true
 					}
-				}
-			}
-			okRemove := false
-			for _, ce := range fsCalls(fs.Body, mb+".removeMessage") {
-				if idVar != "" && len(ce.Args) == 1 && src(ce.Args[0]) == idVar {
-					okRemove = true
-				}
-			}
-			// no break / return inside the loop that could leave it early with the box still full
-			early := false
-			ast.Inspect(fs.Body, func(x ast.Node) bool {
-				switch x.(type) {
-				case *ast.BranchStmt, *ast.ReturnStmt:
-					early = true
 				}
 				return true
 			})
-			if okRemove && !early && genPos != token.NoPos && is.End() < genPos {
-				capShape = "evictFirstBeforeAdd"
+			if sets {
+				res = fd
+				n++
 			}
 		}
 	}
-	g.def("capLoopShape", "String", leanStr(capShape),
-		"newMessage: `if cap > 0 { for len(mb.messages) >= cap { id := mb.messages[0].ID(); mb.removeMessage(id) } }` before generateID")
+	if n != 1 {
+		return nil
+	}
+	return res
+}
 
-	// -- fileIdCollisionCheck: is a drawn id compared with the ids the mailbox already holds?
-	//   "skipsExisting": `id := generateID(..)` is followed by `for mb.hasID(id) { … id = generateID(..) … }` and
-	//                    hasID is `for _, m := range mb.messages { if m.Fid == id { return true } }; return false`
-	//   "none":          exactly one generateID call and no loop after it
-	collision := "unknown"
-	if nm != nil {
-		mb := fsRecvName(nm)
-		cs := fsCalls(nm.Body, "generateID")
-		idVar := ""
-		var defPos token.Pos
-		for _, st := range fsBody(nm) {
-			if as, ok := st.(*ast.AssignStmt); ok && as.Tok == token.DEFINE && len(as.Lhs) == 1 && len(as.Rhs) == 1 {
-				if ce, ok := as.Rhs[0].(*ast.CallExpr); ok && src(ce.Fun) == "generateID" {
-					if id, ok := as.Lhs[0].(*ast.Ident); ok {
-						idVar = id.Name
-						defPos = as.End()
-					}
-				}
-			}
-		}
-		loops := 0
-		okLoop := false
-		for _, st := range fsBody(nm) {
-			fs, ok := st.(*ast.ForStmt)
-			if !ok || idVar == "" || fs.Pos() < defPos {
+// fsMessageCtor: the function that builds a `Message{… Fid: <id> …}` literal, and the expression given to Fid
+func fsMessageCtor(p *crPkg) (*ast.FuncDecl, ast.Expr) {
+	var res *ast.FuncDecl
+	var idExpr ast.Expr
+	n := 0
+	for _, f := range p.files {
+		for _, d := range f.Decls {
+			fd, ok := d.(*ast.FuncDecl)
+			if !ok || fd.Body == nil {
 				continue
 			}
-			loops++
-			if fs.Init == nil && fs.Post == nil && fs.Cond != nil && src(fs.Cond) == mb+".hasID("+idVar+")" {
-				redraw := false
-				early := false
-				ast.Inspect(fs.Body, func(x ast.Node) bool {
-					switch v := x.(type) {
-					case *ast.AssignStmt:
-						if v.Tok == token.ASSIGN && len(v.Lhs) == 1 && len(v.Rhs) == 1 && src(v.Lhs[0]) == idVar {
-							if ce, ok := v.Rhs[0].(*ast.CallExpr); ok && src(ce.Fun) == "generateID" {
-								redraw = true
-							}
-						}
-					case *ast.BranchStmt, *ast.ReturnStmt:
-						early = true
-					}
+			ast.Inspect(fd.Body, func(x ast.Node) bool {
+				cl, ok := x.(*ast.CompositeLit)
+				if !ok {
 					return true
-				})
-				okLoop = redraw && !early
-			}
-		}
-		okHas := false
-		if hid := fn(fmsg, "mbox", "hasID"); hid == nil {
-			hid = fn(mbx, "mbox", "hasID")
-			okHas = fsHasIDShape(hid)
-		} else {
-			okHas = fsHasIDShape(hid)
-		}
-		switch {
-		case idVar != "" && loops == 1 && okLoop && okHas && len(cs) == 2:
-			collision = "skipsExisting"
-		case idVar != "" && loops == 0 && len(cs) == 1:
-			collision = "none"
+				}
+				if id, ok := cl.Type.(*ast.Ident); !ok || id.Name != "Message" {
+					return true
+				}
+				for _, el := range cl.Elts {
+					if kv, ok := el.(*ast.KeyValueExpr); ok && src(kv.Key) == "Fid" {
+						res, idExpr = fd, kv.Value
+						n++
+					}
+				}
+				return true
+			})
 		}
 	}
-	g.def("fileIdCollisionCheck", "String", leanStr(collision),
-		"newMessage: is the drawn id compared with the ids already in the mailbox index (`for mb.hasID(id) { id = generateID(..) }`)")
+	if n != 1 {
+		return nil, nil
+	}
+	return res, idExpr
+}
 
-	// -- idGenerator
-	idGen := "unknown"
-	gid := fn(fst, "", "generateID")
-	gpf := fn(fst, "", "generatePrefix")
-	cg := fn(fst, "", "countGenerator")
-	okID, okPf, okCnt := false, false, false
-	if b := fsBody(gid); len(b) == 1 && gid.Type.Params != nil && len(gid.Type.Params.List) == 1 && len(gid.Type.Params.List[0].Names) == 1 {
-		p := gid.Type.Params.List[0].Names[0].Name
-		if r := fsLastReturn(gid); len(r) == 1 {
-			ret := b[0].(*ast.ReturnStmt).Results[0]
-			// (generatePrefix(p) + "-") + fmt.Sprintf("%04d", <-countChannel)
-			if outer, ok := ret.(*ast.BinaryExpr); ok && outer.Op == token.ADD {
-				if inner, ok := outer.X.(*ast.BinaryExpr); ok && inner.Op == token.ADD && src(inner.X) == "generatePrefix("+p+")" {
-					if dash, ok := fsStrLit(inner.Y); ok && dash == "-" {
-						if ce, ok := outer.Y.(*ast.CallExpr); ok && src(ce.Fun) == "fmt.Sprintf" && len(ce.Args) == 2 {
-							if f, ok := fsStrLit(ce.Args[0]); ok && f == "%04d" {
-								if u, ok := ce.Args[1].(*ast.UnaryExpr); ok && u.Op == token.ARROW && src(u.X) == "countChannel" {
-									okID = true
-								}
-							}
-						}
-					}
+// fsPkgCallee: the package function / method a call refers to (nil when it is not one, or ambiguous)
+func fsPkgCallee(p *crPkg, ce *ast.CallExpr) *ast.FuncDecl {
+	switch f := crUnparen(ce.Fun).(type) {
+	case *ast.Ident:
+		if f.Obj != nil && f.Obj.Kind != ast.Fun {
+			return nil
+		}
+		return p.uniqueFunc(f.Name, false)
+	case *ast.SelectorExpr:
+		if id, ok := f.X.(*ast.Ident); ok && id.Obj == nil && p.imports[id.Name] {
+			return nil
+		}
+		return p.uniqueFunc(f.Sel.Name, true)
+	}
+	return nil
+}
+
+// ---- loadsIndexFirst ------------------------------------------------------------------------------------
+
+const fsGuard = "( [loaded] | [unloaded] L )"
+
+// fsFirstAccess: in a load-mode program (L = the loader runs, M = the message list is touched): is the first touch of the
+// list preceded, on every path, by the guard `( [loaded] | [unloaded] L )` or by an unconditional L?
+// returns "none" (list never touched), "guarded", "bad"
+func fsFirstAccess(seq []crItem) string {
+	pending := "none"
+	for _, it := range seq {
+		switch it.kind {
+		case 0:
+			if it.atom == "M" {
+				return "bad"
+			}
+			if it.atom == "L" {
+				return "guarded"
+			}
+		case 1:
+			if crStr([]crItem{it}) == fsGuard {
+				return "guarded"
+			}
+			rs := map[string]bool{}
+			for _, b := range it.alt {
+				rs[fsFirstAccess(b)] = true
+			}
+			switch {
+			case rs["bad"], rs["guarded"] && rs["none"]:
+				return "bad"
+			case rs["guarded"]:
+				return "guarded"
+			}
+		case 2:
+			switch fsFirstAccess(it.loop) {
+			case "bad":
+				return "bad"
+			case "guarded":
+				pending = "guarded" // the loop may run zero times: what follows must be guarded again (or not touch the list)
+			}
+		}
+	}
+	return pending
+}
+
+// ---- the not-found outcomes -----------------------------------------------------------------------------
+
+// fsResultWord: the last result of a return whose other results are nil
+func fsResultWord(ret *ast.ReturnStmt) string {
+	if ret == nil || len(ret.Results) == 0 {
+		return "unknown"
+	}
+	for _, r := range ret.Results[:len(ret.Results)-1] {
+		if !crIsNil(r) {
+			return "unknown"
+		}
+	}
+	last := crUnparen(ret.Results[len(ret.Results)-1])
+	if crIsNil(last) {
+		return "nil"
+	}
+	if se, ok := last.(*ast.SelectorExpr); ok && se.Sel.Name == "ErrNotExist" {
+		if id, ok := se.X.(*ast.Ident); ok && id.Name == "storage" && id.Obj == nil {
+			return "errNotExist"
+		}
+	}
+	return "unknown"
+}
+
+// fsSearchFn: the function that searches the message list for an id, starting from an exported entry point: the entry
+// itself when its body has a top-level loop over the list, else the first package-local callee (two levels deep) that has
+func fsSearchFn(p *crPkg, fd *ast.FuncDecl, loader *ast.FuncDecl, depth int) *ast.FuncDecl {
+	if fd == nil || fd.Body == nil || fd == loader {
+		return nil
+	}
+	for _, s := range fd.Body.List {
+		if rs, ok := s.(*ast.RangeStmt); ok && fsIsField(rs.X, p.sliceField) {
+			return fd
+		}
+	}
+	if depth == 0 {
+		return nil
+	}
+	for _, ce := range callsIn(fd.Body) {
+		if c := fsPkgCallee(p, ce); c != nil && c != fd {
+			if r := fsSearchFn(p, c, loader, depth-1); r != nil {
+				return r
+			}
+		}
+	}
+	return nil
+}
+
+// fsNotFound: what the search function answers when no entry of the list matches.
+//
+//	(a) marker form: a local set inside the search loop and tested against its initial value right after it
+//	    (`var m *T … if m == nil`, `i := -1 … if i < 0`, `ok := false … if !ok`) with a body that is one return;
+//	(b) fall-through form: the loop returns from inside on a match and the statement right after it is the final return.
+func fsNotFound(p *crPkg, fd *ast.FuncDecl) string {
+	if fd == nil {
+		return "unknown"
+	}
+	body := fd.Body.List
+	li := -1
+	for i, s := range body {
+		if rs, ok := s.(*ast.RangeStmt); ok && fsIsField(rs.X, p.sliceField) {
+			li = i
+			break
+		}
+	}
+	if li < 0 || li+1 >= len(body) {
+		return "unknown"
+	}
+	loop := body[li].(*ast.RangeStmt)
+	// variables assigned inside the loop
+	assigned := map[*ast.Object]bool{}
+	ast.Inspect(loop.Body, func(x ast.Node) bool {
+		if as, ok := x.(*ast.AssignStmt); ok && as.Tok == token.ASSIGN {
+			for _, l := range as.Lhs {
+				if id, ok := l.(*ast.Ident); ok && id.Obj != nil {
+					assigned[id.Obj] = true
 				}
 			}
 		}
-	}
-	if b := fsBody(gpf); len(b) == 1 {
-		if ret, ok := b[0].(*ast.ReturnStmt); ok && len(ret.Results) == 1 {
-			if ce, ok := ret.Results[0].(*ast.CallExpr); ok && len(ce.Args) == 1 {
-				if se, ok := ce.Fun.(*ast.SelectorExpr); ok && se.Sel.Name == "Format" {
-					if l, ok := fsStrLit(ce.Args[0]); ok && l == "20060102T150405" {
-						okPf = true
-					}
-				}
-			}
+		return true
+	})
+	next := body[li+1]
+	if is, ok := next.(*ast.IfStmt); ok && is.Init == nil && is.Else == nil && len(is.Body.List) == 1 {
+		ret, isRet := is.Body.List[0].(*ast.ReturnStmt)
+		if isRet && fsSentinelTest(is.Cond, assigned) {
+			return fsResultWord(ret)
 		}
+		return "unknown"
 	}
-	if b := fsBody(cg); len(b) == 1 {
-		if fs, ok := b[0].(*ast.ForStmt); ok && fs.Post != nil {
-			post := strings.Join(strings.Fields(src(fs.Post)), " ")
-			init := ""
-			if fs.Init != nil {
-				init = strings.Join(strings.Fields(src(fs.Init)), " ")
-			}
-			if post == "i = (i + 1) % 10000" && init == "i := 0" {
-				okCnt = true
-			}
-		}
-	}
-	// the counter must be a package-level channel fed by countGenerator started from init()
-	started := false
-	if in := fn(fst, "", "init"); in != nil {
-		fsInspect(in, func(x ast.Node) bool {
-			if gs, ok := x.(*ast.GoStmt); ok && src(gs.Call) == "countGenerator(countChannel)" {
-				started = true
+	if ret, ok := next.(*ast.ReturnStmt); ok && li+2 == len(body) {
+		// the loop must leave the function on a match (otherwise the final return is not the not-found answer)
+		returns := false
+		ast.Inspect(loop.Body, func(x ast.Node) bool {
+			if _, ok := x.(*ast.ReturnStmt); ok {
+				returns = true
 			}
 			return true
 		})
+		if returns {
+			return fsResultWord(ret)
+		}
 	}
-	if okID && okPf && okCnt && started {
-		idGen = "secondPlusCounterMod10000"
-	}
-	g.def("idGenerator", "String", leanStr(idGen),
-		"generateID = generatePrefix(date) + \"-\" + Sprintf(\"%04d\", <-countChannel); layout 20060102T150405 (one-second resolution); "+
-			"process-wide counter i = (i + 1) % 10000 started from 0 in init()")
+	return "unknown"
 }
 
-// fsHasIDShape: `func (mb *mbox) hasID(id string) bool { for _, m := range mb.messages { if m.Fid == id { return true } }; return false }`
-func fsHasIDShape(fd *ast.FuncDecl) bool {
-	if fd == nil || fd.Body == nil || len(fd.Body.List) != 2 || fd.Type.Params == nil || len(fd.Type.Params.List) != 1 ||
-		len(fd.Type.Params.List[0].Names) != 1 {
+// fsSentinelTest: cond tests a variable assigned in the search loop against the value it was initialised with
+func fsSentinelTest(cond ast.Expr, assigned map[*ast.Object]bool) bool {
+	cond = crUnparen(cond)
+	initOf := func(id *ast.Ident) string {
+		if id.Obj == nil || !assigned[id.Obj] {
+			return ""
+		}
+		switch d := id.Obj.Decl.(type) {
+		case *ast.ValueSpec: // var v T
+			for k, n := range d.Names {
+				if n.Obj == id.Obj {
+					if k < len(d.Values) {
+						return src(d.Values[k])
+					}
+					if _, ptr := d.Type.(*ast.StarExpr); ptr {
+						return "nil"
+					}
+				}
+			}
+		case *ast.AssignStmt:
+			for k, l := range d.Lhs {
+				if li, ok := l.(*ast.Ident); ok && li.Obj == id.Obj && len(d.Lhs) == len(d.Rhs) {
+					return src(d.Rhs[k])
+				}
+			}
+		}
+		return ""
+	}
+	if u, ok := cond.(*ast.UnaryExpr); ok && u.Op == token.NOT {
+		id, ok := crUnparen(u.X).(*ast.Ident)
+		return ok && initOf(id) == "false"
+	}
+	be, ok := cond.(*ast.BinaryExpr)
+	if !ok {
 		return false
 	}
-	mb := fsRecvName(fd)
-	p := fd.Type.Params.List[0].Names[0].Name
+	id, ok := crUnparen(be.X).(*ast.Ident)
+	if !ok {
+		return false
+	}
+	switch initOf(id) {
+	case "nil":
+		return be.Op == token.EQL && crIsNil(be.Y)
+	case "-1":
+		return (be.Op == token.LSS && fsIntLit(be.Y, "0")) || (be.Op == token.EQL && src(be.Y) == "-1")
+	}
+	return false
+}
+
+// ---- the cap loop and the id draw -----------------------------------------------------------------------
+
+// fsCmpOperands: `a <op> b` normalised to >= / > (so `b <= a` is `a >= b`)
+func fsCmpOperands(e ast.Expr, want token.Token) (ast.Expr, ast.Expr, bool) {
+	be, ok := crUnparen(e).(*ast.BinaryExpr)
+	if !ok {
+		return nil, nil, false
+	}
+	switch {
+	case be.Op == want:
+		return crUnparen(be.X), crUnparen(be.Y), true
+	case want == token.GEQ && be.Op == token.LEQ, want == token.GTR && be.Op == token.LSS:
+		return crUnparen(be.Y), crUnparen(be.X), true
+	}
+	return nil, nil, false
+}
+
+// fsIsLenOfList: e is len(<box>.<message list>)
+func fsIsLenOfList(p *crPkg, e ast.Expr) bool {
+	ce, ok := crUnparen(e).(*ast.CallExpr)
+	return ok && len(ce.Args) == 1 && src(ce.Fun) == "len" && fsIsField(ce.Args[0], p.sliceField)
+}
+
+// fsIsHeadID: e is <list>[0].ID() / <list>[0].Fid, possibly through a local defined as that
+func fsIsHeadID(p *crPkg, e ast.Expr) bool {
+	e = p.defOf(e)
+	var base ast.Expr
+	switch v := e.(type) {
+	case *ast.CallExpr:
+		se, ok := crUnparen(v.Fun).(*ast.SelectorExpr)
+		if !ok || se.Sel.Name != "ID" || len(v.Args) != 0 {
+			return false
+		}
+		base = se.X
+	case *ast.SelectorExpr:
+		if v.Sel.Name != "Fid" {
+			return false
+		}
+		base = v.X
+	default:
+		return false
+	}
+	ix, ok := p.defOf(base).(*ast.IndexExpr) // <list>[0], or a local defined as that
+	return ok && fsIsField(ix.X, p.sliceField) && fsIntLit(ix.Index, "0")
+}
+
+// fsCapLoops: the `for` loops of a body with the conjuncts of their own condition and of the `if`s (then-branches) around
+// them; a loop inside an else-branch or another loop gets the conjunct nil (never accepted)
+type fsLoop struct {
+	stmt  *ast.ForStmt
+	conds []ast.Expr
+}
+
+func fsCapLoops(stmts []ast.Stmt, conds []ast.Expr, out *[]fsLoop) {
+	for _, s := range stmts {
+		switch v := s.(type) {
+		case *ast.BlockStmt:
+			fsCapLoops(v.List, conds, out)
+		case *ast.IfStmt:
+			fsCapLoops(v.Body.List, append(append([]ast.Expr{}, conds...), crConjuncts(v.Cond)...), out)
+			if v.Else != nil {
+				fsCapLoops([]ast.Stmt{v.Else}, append(append([]ast.Expr{}, conds...), nil), out)
+			}
+		case *ast.ForStmt:
+			cs := append([]ast.Expr{}, conds...)
+			if v.Cond != nil {
+				cs = append(cs, crConjuncts(v.Cond)...)
+			} else {
+				cs = append(cs, nil)
+			}
+			*out = append(*out, fsLoop{v, cs})
+		}
+	}
+}
+
+// fsHasIDShape: `func (b *box) has(id string) bool { for _, m := range b.<list> { if m.Fid == id { return true } }; return false }`
+// (names free; the comparison may be written either way round and may use m.ID())
+func fsHasIDShape(p *crPkg, fd *ast.FuncDecl) bool {
+	if fd == nil || fd.Body == nil || len(fd.Body.List) != 2 {
+		return false
+	}
+	par := fsParamObj(fd)
 	rs, ok := fd.Body.List[0].(*ast.RangeStmt)
-	if !ok || src(rs.X) != mb+".messages" || rs.Value == nil || len(rs.Body.List) != 1 {
+	if !ok || par == nil || !fsIsField(rs.X, p.sliceField) || rs.Value == nil || len(rs.Body.List) != 1 {
 		return false
 	}
-	v := src(rs.Value)
+	vid, ok := rs.Value.(*ast.Ident)
+	if !ok || vid.Obj == nil {
+		return false
+	}
 	is, ok := rs.Body.List[0].(*ast.IfStmt)
 	if !ok || is.Init != nil || is.Else != nil || len(is.Body.List) != 1 {
 		return false
 	}
-	c := strings.Join(strings.Fields(src(is.Cond)), " ")
-	if c != v+".Fid == "+p && c != p+" == "+v+".Fid" {
+	be, ok := crUnparen(is.Cond).(*ast.BinaryExpr)
+	if !ok || be.Op != token.EQL {
+		return false
+	}
+	isElemID := func(e ast.Expr) bool {
+		e = crUnparen(e)
+		if ce, ok := e.(*ast.CallExpr); ok && len(ce.Args) == 0 {
+			if se, ok := ce.Fun.(*ast.SelectorExpr); ok && se.Sel.Name == "ID" {
+				return fsIsVar(se.X, vid.Obj)
+			}
+			return false
+		}
+		se, ok := e.(*ast.SelectorExpr)
+		return ok && se.Sel.Name == "Fid" && fsIsVar(se.X, vid.Obj)
+	}
+	if !(isElemID(be.X) && fsIsVar(be.Y, par)) && !(isElemID(be.Y) && fsIsVar(be.X, par)) {
 		return false
 	}
 	r1, ok := is.Body.List[0].(*ast.ReturnStmt)
@@ -662,4 +506,406 @@ func fsHasIDShape(fd *ast.FuncDecl) bool {
 	}
 	r2, ok := fd.Body.List[1].(*ast.ReturnStmt)
 	return ok && len(r2.Results) == 1 && src(r2.Results[0]) == "false"
+}
+
+// ---- the extractor --------------------------------------------------------------------------------------
+
+func extractFileStore() {
+	g := gen("FileStore")
+	p := crFilePkg()
+	loader := fsLoader(p)
+
+	// -- storeFields / storeHasCache
+	kinds := map[string]bool{}
+	hasCache := "unknown"
+	if ts, ok := p.types["Store"]; ok {
+		if st, ok := ts.Type.(*ast.StructType); ok {
+			hasCache = "no"
+			for _, fl := range st.Fields.List {
+				kinds[fsKind(fl.Type)] = true
+				ast.Inspect(fl.Type, func(x ast.Node) bool {
+					switch v := x.(type) {
+					case *ast.MapType, *ast.ArrayType, *ast.ChanType:
+						hasCache = "unknown"
+					case *ast.SelectorExpr:
+						return false // a type of another package
+					case *ast.Ident:
+						if _, local := p.types[v.Name]; local {
+							hasCache = "unknown"
+						}
+					}
+					return true
+				})
+			}
+		}
+	}
+	ks := []string{}
+	for k := range kinds {
+		ks = append(ks, k)
+	}
+	sort.Strings(ks)
+	g.def("storeFields", "List String", strList(ks),
+		"the kinds (map | slice | chan | plain) that occur among the fields of `type Store struct`, sorted, without duplicates")
+	g.def("storeHasCache", "String", leanStr(hasCache),
+		"\"no\" iff no Store field type contains a map / slice / channel type or names a type declared in package file (the mailbox struct, Message, …)")
+
+	// -- mboxPerCall
+	perCall := "unknown"
+	if lits := p.boxLiterals(); len(lits) > 0 && p.sliceField != "" && p.boolField != "" {
+		perCall = "fresh"
+		for _, cl := range lits {
+			for _, el := range cl.Elts {
+				kv, ok := el.(*ast.KeyValueExpr)
+				if !ok { // positional literal: fields cannot be told apart
+					perCall = "unknown"
+					continue
+				}
+				if k := src(kv.Key); k == p.sliceField || k == p.boolField {
+					perCall = "unknown"
+				}
+			}
+		}
+	}
+	g.def("mboxPerCall", "String", leanStr(perCall),
+		"\"fresh\" iff every composite literal of the mailbox struct (the struct embedding sync.RWMutex) in the package is keyed and sets neither its message list (only slice field) nor its loaded flag (only bool field)")
+
+	// -- loadsIndexFirst
+	lp := []string{}
+	if loader != nil && p.sliceField != "" && p.boolField != "" {
+		for _, fd := range p.exportedMethods("Store") {
+			pr := (&crWalk{p: p, mode: crModeLoad, loader: loader}).prog(fd)
+			switch fsFirstAccess(pr) {
+			case "guarded":
+				lp = append(lp, fmt.Sprintf("(%s, true)", leanStr(fd.Name.Name)))
+			case "bad":
+				lp = append(lp, fmt.Sprintf("(%s, false)", leanStr(fd.Name.Name)))
+			}
+		}
+	}
+	g.def("loadsIndexFirst", "List (String × Bool)", "["+strings.Join(lp, ", ")+"]",
+		"per exported Store method that touches the message list (helpers inlined): on every path the first touch comes after `if !<loaded flag> { <loader>() }` (any equivalent layout, e.g. a helper `if <flag> { return nil }; return <loader>()`) or after an unconditional call of the loader; the loader is the function that sets the flag to true")
+
+	// -- readIndexResets
+	resets := "unknown"
+	if loader != nil {
+		for _, s := range loader.Body.List {
+			touches := false
+			ast.Inspect(s, func(x ast.Node) bool {
+				if e, ok := x.(ast.Expr); ok && fsIsField(e, p.sliceField) {
+					touches = true
+				}
+				return true
+			})
+			if !touches {
+				continue
+			}
+			if as, ok := s.(*ast.AssignStmt); ok && as.Tok == token.ASSIGN && len(as.Lhs) == 1 && len(as.Rhs) == 1 && fsIsField(as.Lhs[0], p.sliceField) {
+				if se, ok := as.Rhs[0].(*ast.SliceExpr); ok && fsIsField(se.X, p.sliceField) && se.Low == nil && se.High != nil && fsIntLit(se.High, "0") && !se.Slice3 {
+					resets = "truncates"
+				}
+				if crIsNil(as.Rhs[0]) {
+					resets = "truncates"
+				}
+			}
+			break // only the first statement that touches the list counts
+		}
+	}
+	g.def("readIndexResets", "String", leanStr(resets),
+		"\"truncates\" iff the first top-level statement of the index loader that touches the message list is `<list> = <list>[:0]` (or `= nil`)")
+
+	// -- fileIndexWrite / writeIndexEmptyRemovesDir
+	idxWrite, emptyRemoves := "unknown", "unknown"
+	if wi := crIndexWriter(p); wi != nil {
+		pr := (&crWalk{p: p, mode: crModeFS}).prog(wi)
+		switch crIndexWriteKind(pr) {
+		case "tmpRename":
+			idxWrite = "tempThenRename"
+		case "inPlace":
+			idxWrite = "createInPlace"
+		}
+		if len(pr) == 1 && pr[0].kind == 1 && len(pr[0].alt) == 2 {
+			var empty, nonempty []crItem
+			for _, b := range pr[0].alt {
+				if len(b) > 0 && b[0].kind == 0 && b[0].atom == "[empty]" {
+					empty = b
+				}
+				if len(b) > 0 && b[0].kind == 0 && b[0].atom == "[nonempty]" {
+					nonempty = b
+				}
+			}
+			okE := empty != nil && crIndexOf(crFlat(empty), "removeall(dir)") >= 0
+			for _, a := range crFlat(empty) {
+				if !strings.HasPrefix(a, "@") && !strings.HasPrefix(a, "unlink(") && a != "removeall(dir)" {
+					okE = false
+				}
+			}
+			okN := nonempty != nil
+			for _, a := range crFlat(nonempty) {
+				if strings.HasPrefix(a, "removeall(") || strings.HasPrefix(a, "unlink(") || strings.HasPrefix(a, "?") {
+					okN = false
+				}
+			}
+			if okE && okN {
+				emptyRemoves = "yes"
+			}
+		}
+	}
+	g.def("fileIndexWrite", "String", leanStr(idxWrite),
+		"the index writer (the function calling os.Rename, else the one creating dir/index.gob), helpers inlined: \"tempThenRename\" = the only file it creates is dir/index.gob<suffix> and os.Rename(<that file>, dir/index.gob) follows; \"createInPlace\" = it creates dir/index.gob itself, no rename")
+	g.def("writeIndexEmptyRemovesDir", "String", leanStr(emptyRemoves),
+		"\"yes\" iff the index writer is one two-way test of len(<message list>) against 0 whose [empty] side only unlinks / os.RemoveAll(dir)s (the directory remover) and whose [nonempty] side removes nothing")
+
+	// -- fileRemoveDir
+	removeDir := "unknown"
+	switch crRemoveDirKind(crOne(p, "os", "RemoveAll")) {
+	case "indexFirst":
+		removeDir = "indexFirst"
+	case "removeAllFirst":
+		removeDir = "removeAll"
+	}
+	g.def("fileRemoveDir", "String", leanStr(removeDir),
+		"the function calling os.RemoveAll: \"indexFirst\" = os.Remove(dir/index.gob) before the only os.RemoveAll(dir); \"removeAll\" = no unlink of the index before it")
+
+	// -- the three not-found outcomes
+	nf := func(entry string) string {
+		return fsNotFound(p, fsSearchFn(p, p.method("Store", entry), loader, 2))
+	}
+	nfNote := ": the answer when the search loop over the message list (in the method or a helper it calls) matches nothing — the return guarded by the found-marker test right after the loop, or the final return the loop falls through to; \"errNotExist\" = storage.ErrNotExist (other results nil), \"nil\" = all nil"
+	g.def("markSeenNotFound", "String", leanStr(nf("MarkSeen")), "Store.MarkSeen"+nfNote)
+	g.def("getNotFound", "String", leanStr(nf("GetMessage")), "Store.GetMessage"+nfNote)
+	g.def("removeNotFound", "String", leanStr(nf("RemoveMessage")), "Store.RemoveMessage"+nfNote)
+
+	// -- capLoopShape / fileIdCollisionCheck
+	capShape, collision := "unknown", "unknown"
+	nm, idExpr := fsMessageCtor(p)
+	var idObj *ast.Object
+	var genFn *ast.FuncDecl
+	var defStmt *ast.AssignStmt
+	if id, ok := idExpr.(*ast.Ident); ok && id.Obj != nil {
+		if as, ok := id.Obj.Decl.(*ast.AssignStmt); ok && as.Tok == token.DEFINE && len(as.Lhs) == 1 && len(as.Rhs) == 1 {
+			if ce, ok := as.Rhs[0].(*ast.CallExpr); ok {
+				if fd := fsPkgCallee(p, ce); fd != nil && fd.Recv == nil {
+					idObj, genFn, defStmt = id.Obj, fd, as
+				}
+			}
+		}
+	}
+	isGenCall := func(e ast.Expr) bool {
+		ce, ok := crUnparen(e).(*ast.CallExpr)
+		return ok && genFn != nil && fsPkgCallee(p, ce) == genFn
+	}
+	if nm != nil && genFn != nil {
+		var loops []fsLoop
+		fsCapLoops(nm.Body.List, nil, &loops)
+		for i := range loops {
+			if loops[i].stmt.End() >= defStmt.Pos() { // not before the draw
+				loops[i].conds = append(loops[i].conds, nil)
+			}
+		}
+		// … or in a package helper called (unconditionally, at the top level of the constructor) before the draw
+		for _, s := range nm.Body.List {
+			if s.End() >= defStmt.Pos() {
+				break
+			}
+			var call ast.Expr
+			switch v := s.(type) {
+			case *ast.ExprStmt:
+				call = v.X
+			case *ast.AssignStmt:
+				if len(v.Rhs) == 1 {
+					call = v.Rhs[0]
+				}
+			case *ast.IfStmt: // if err := helper(); err != nil { … }
+				if as, ok := v.Init.(*ast.AssignStmt); ok && len(as.Rhs) == 1 {
+					call = as.Rhs[0]
+				}
+			}
+			if ce, ok := call.(*ast.CallExpr); ok {
+				if h := fsPkgCallee(p, ce); h != nil && h != loader && h != nm {
+					fsCapLoops(h.Body.List, nil, &loops)
+				}
+			}
+		}
+		for _, l := range loops {
+			fs := l.stmt
+			if fs.Init != nil || fs.Post != nil || len(l.conds) != 2 {
+				continue
+			}
+			// { len(list) >= C , C > 0 } with the same C
+			var capA, capB ast.Expr
+			for _, c := range l.conds {
+				if c == nil {
+					continue
+				}
+				if x, y, ok := fsCmpOperands(c, token.GEQ); ok && fsIsLenOfList(p, x) {
+					capA = y
+				} else if x, y, ok := fsCmpOperands(c, token.GTR); ok && fsIntLit(y, "0") {
+					capB = x
+				}
+			}
+			if capA == nil || capB == nil || src(capA) != src(capB) || fsLeaves(fs.Body) {
+				continue
+			}
+			// the body removes <list>[0] through a package function that rewrites the index
+			for _, ce := range callsIn(fs.Body) {
+				callee := fsPkgCallee(p, ce)
+				if callee == nil || len(ce.Args) != 1 || !fsIsHeadID(p, ce.Args[0]) {
+					continue
+				}
+				flat := crFlat((&crWalk{p: p, mode: crModeFS}).prog(callee))
+				rewrites := false
+				for _, a := range flat {
+					if strings.HasPrefix(a, "rename(") || strings.HasPrefix(a, "removeall(") || a == "create(dir/index.gob)" {
+						rewrites = true
+					}
+				}
+				if rewrites {
+					capShape = "evictFirstBeforeAdd"
+				}
+			}
+		}
+
+		// the id draw
+		nGen := 0
+		for _, ce := range callsIn(nm.Body) {
+			if isGenCall(ce) {
+				nGen++
+			}
+		}
+		after := 0
+		okLoop := false
+		var has *ast.FuncDecl
+		ast.Inspect(nm.Body, func(x ast.Node) bool {
+			fs, ok := x.(*ast.ForStmt)
+			if !ok || fs.Pos() < defStmt.End() {
+				return true
+			}
+			after++
+			if ce, ok := fs.Cond.(*ast.CallExpr); ok && fs.Init == nil && fs.Post == nil && len(ce.Args) == 1 && fsIsVar(ce.Args[0], idObj) {
+				has = fsPkgCallee(p, ce)
+				redraw := false
+				ast.Inspect(fs.Body, func(y ast.Node) bool {
+					if as, ok := y.(*ast.AssignStmt); ok && as.Tok == token.ASSIGN && len(as.Lhs) == 1 && len(as.Rhs) == 1 && fsIsVar(as.Lhs[0], idObj) && isGenCall(as.Rhs[0]) {
+						redraw = true
+					}
+					return true
+				})
+				okLoop = redraw && !fsLeaves(fs.Body)
+			}
+			return true
+		})
+		switch {
+		case after == 1 && okLoop && fsHasIDShape(p, has) && nGen == 2:
+			collision = "skipsExisting"
+		case after == 0 && nGen == 1:
+			collision = "none"
+		}
+	}
+	g.def("capLoopShape", "String", leanStr(capShape),
+		"the message constructor (the function building `Message{… Fid: id …}`): \"evictFirstBeforeAdd\" iff before the id is drawn there is a `for` loop whose condition, together with the `if`s around it, is exactly { len(<list>) >= C, C > 0 } (folded into the loop condition or not), without break / return, whose body passes <list>[0].ID() to a package function that rewrites the index")
+	g.def("fileIdCollisionCheck", "String", leanStr(collision),
+		"the message constructor: \"skipsExisting\" = the variable that becomes Fid is drawn by a package function G and then re-drawn by `for <has>(id) { … id = G(..) … }` (no break / return) where <has> is `for _, m := range <list> { if m.Fid == id { return true } }; return false`; \"none\" = one draw, no loop after it")
+
+	// -- idGenerator
+	idGen := "unknown"
+	if genFn != nil {
+		okID, okPf, okCnt, started := false, false, false, false
+		var chanName string
+		gp := fsParamObj(genFn)
+		if b := fsBody(genFn); len(b) == 1 && gp != nil {
+			if ret, ok := b[0].(*ast.ReturnStmt); ok && len(ret.Results) == 1 {
+				// (P(p) + "-") + fmt.Sprintf("%04d", <-CH)
+				if outer, ok := crUnparen(ret.Results[0]).(*ast.BinaryExpr); ok && outer.Op == token.ADD {
+					inner, ok1 := crUnparen(outer.X).(*ast.BinaryExpr)
+					ce, ok2 := crUnparen(outer.Y).(*ast.CallExpr)
+					if ok1 && ok2 && inner.Op == token.ADD && p.isPkgCall(ce, "fmt", "Sprintf") && len(ce.Args) == 2 {
+						dash, okDash := fsStrLit(inner.Y)
+						f, okF := fsStrLit(ce.Args[0])
+						u, okU := crUnparen(ce.Args[1]).(*ast.UnaryExpr)
+						pc, okP := crUnparen(inner.X).(*ast.CallExpr)
+						if okDash && dash == "-" && okF && f == "%04d" && okU && u.Op == token.ARROW && okP && len(pc.Args) == 1 && fsIsVar(pc.Args[0], gp) {
+							if ch, ok := crUnparen(u.X).(*ast.Ident); ok {
+								// a package-level channel of int
+								if mk, ok := p.consts[ch.Name].(*ast.CallExpr); ok && src(mk.Fun) == "make" && len(mk.Args) >= 1 {
+									if ct, ok := mk.Args[0].(*ast.ChanType); ok && src(ct.Value) == "int" {
+										chanName = ch.Name
+										okID = true
+									}
+								}
+							}
+							// the prefix function: return <param>.Format("20060102T150405")
+							if pf := fsPkgCallee(p, pc); pf != nil {
+								pp := fsParamObj(pf)
+								if pb := fsBody(pf); len(pb) == 1 && pp != nil {
+									if r, ok := pb[0].(*ast.ReturnStmt); ok && len(r.Results) == 1 {
+										if fc, ok := crUnparen(r.Results[0]).(*ast.CallExpr); ok && len(fc.Args) == 1 {
+											if se, ok := fc.Fun.(*ast.SelectorExpr); ok && se.Sel.Name == "Format" && fsIsVar(se.X, pp) {
+												if l, ok := fsStrLit(fc.Args[0]); ok && l == "20060102T150405" {
+													okPf = true
+												}
+											}
+										}
+									}
+								}
+							}
+						}
+					}
+				}
+			}
+		}
+		// the counter: a package function `for i := 0; …; i = (i + 1) % 10000 { c <- i }` started by `go <it>(CH)` in an init()
+		var counter *ast.FuncDecl
+		for _, f := range p.files {
+			for _, d := range f.Decls {
+				fd, ok := d.(*ast.FuncDecl)
+				if !ok || fd.Recv != nil {
+					continue
+				}
+				cp := fsParamObj(fd)
+				b := fsBody(fd)
+				if cp == nil || len(b) != 1 {
+					continue
+				}
+				fs, ok := b[0].(*ast.ForStmt)
+				if !ok || fs.Init == nil || fs.Post == nil || len(fs.Body.List) != 1 {
+					continue
+				}
+				in, ok1 := fs.Init.(*ast.AssignStmt)
+				po, ok2 := fs.Post.(*ast.AssignStmt)
+				snd, ok3 := fs.Body.List[0].(*ast.SendStmt)
+				if !ok1 || !ok2 || !ok3 || in.Tok != token.DEFINE || len(in.Lhs) != 1 || len(in.Rhs) != 1 || !fsIntLit(in.Rhs[0], "0") ||
+					po.Tok != token.ASSIGN || len(po.Lhs) != 1 || len(po.Rhs) != 1 {
+					continue
+				}
+				iv, ok := in.Lhs[0].(*ast.Ident)
+				if !ok || iv.Obj == nil || !fsIsVar(po.Lhs[0], iv.Obj) || !fsIsVar(snd.Value, iv.Obj) || !fsIsVar(snd.Chan, cp) {
+					continue
+				}
+				if fs.Cond != nil && src(fs.Cond) != "true" {
+					continue
+				}
+				if rem, ok := crUnparen(po.Rhs[0]).(*ast.BinaryExpr); ok && rem.Op == token.REM && fsIntLit(rem.Y, "10000") {
+					if add, ok := crUnparen(rem.X).(*ast.BinaryExpr); ok && add.Op == token.ADD && fsIsVar(add.X, iv.Obj) && fsIntLit(add.Y, "1") {
+						counter = fd
+						okCnt = true
+					}
+				}
+			}
+		}
+		for _, in := range p.funcs["init"] {
+			fsInspect(in, func(x ast.Node) bool {
+				if gs, ok := x.(*ast.GoStmt); ok && counter != nil && fsPkgCallee(p, gs.Call) == counter && len(gs.Call.Args) == 1 {
+					if a, ok := gs.Call.Args[0].(*ast.Ident); ok && a.Name == chanName && chanName != "" {
+						started = true
+					}
+				}
+				return true
+			})
+		}
+		if okID && okPf && okCnt && started {
+			idGen = "secondPlusCounterMod10000"
+		}
+	}
+	g.def("idGenerator", "String", leanStr(idGen),
+		"the function G that draws Fid is `return P(t) + \"-\" + fmt.Sprintf(\"%04d\", <-CH)` with P = `return t.Format(\"20060102T150405\")` (one-second resolution) and CH a package-level `chan int` fed by a package function `for i := 0; ; i = (i + 1) % 10000 { c <- i }` that an init() starts with `go`: a process-wide counter that restarts at 0 with the process")
 }
